@@ -944,6 +944,12 @@ func (r *FnRun) binopVals(st *State, ins ssa.Instruction, op token.Token, a, b V
 			panic(unsupported("comparison of struct with non-struct"))
 		}
 		if bt, isB := xt.Underlying().(*types.Basic); isB && bt.Info()&types.IsString != 0 {
+			if op == token.ADD {
+				// concatenation: a fresh string of the summed length (contents not modelled)
+				res := r.freshVal(st, "concat", xt).(*StructVal)
+				st.assume(Eq(res.F[1].(Term), Add(sa.F[1].(Term), sb.F[1].(Term))), "len(a+b) = len(a)+len(b)")
+				return res
+			}
 			// string comparison by contents: only against literals of known text / lengths
 			return r.stringCompare(st, op, sa, sb)
 		}
@@ -1159,6 +1165,10 @@ func (r *FnRun) unop(st *State, x *ssa.UnOp) Val {
 }
 
 func (r *FnRun) convert(st *State, v Val, from, to types.Type) Val {
+	if fp, ok := v.(*FieldPtr); ok {
+		r.E.Notes["a field address escapes to a raw pointer in "+r.FnName+" (accesses through it use the raw memory view)"] = true
+		v = fp.Addr
+	}
 	fs, fok := r.E.scalarSort(from)
 	ts, tok := r.E.scalarSort(to)
 	if fok && tok {
@@ -1319,6 +1329,13 @@ func derivedAddr(v ssa.Value) bool {
 	return false
 }
 
+func fpFromBits(bits Term) Term {
+	if bits.Sort.W == 32 {
+		return Term{"((_ to_fp 8 24) " + bits.S + ")", FPSort(32)}
+	}
+	return Term{"((_ to_fp 11 53) " + bits.S + ")", FPSort(64)}
+}
+
 func (r *FnRun) loadAt(st *State, addr Term, t types.Type) Val {
 	if _, ok := r.E.scalarSort(t); ok {
 		m, s := r.E.memFor(t)
@@ -1330,12 +1347,23 @@ func (r *FnRun) loadAt(st *State, addr Term, t types.Type) Val {
 			return Term{raw.S, s}
 		case KInt:
 			return r.loadWord(st, addr, s.Signed)
+		case KFP:
+			// floats live in memory as their IEEE bit patterns
+			return fpFromBits(Term{raw.S, Sort{K: KBV, W: s.W}})
 		default:
 			return raw
 		}
 	}
 	switch u := t.Underlying().(type) {
 	case *types.Basic:
+		if u.Info()&types.IsComplex != 0 {
+			ft := types.Typ[types.Float64]
+			w := int64(8)
+			if u.Kind() == types.Complex64 {
+				ft, w = types.Typ[types.Float32], 4
+			}
+			return &StructVal{N: []string{"re", "im"}, F: []Val{r.loadAt(st, addr, ft), r.loadAt(st, Add(addr, BVInt(w, 64, false)), ft)}}
+		}
 		if u.Info()&types.IsString != 0 {
 			return &StructVal{N: stringFields, F: []Val{
 				r.loadWord(st, addr, false),
@@ -1423,6 +1451,11 @@ func (r *FnRun) storeAt(st *State, addr Term, t types.Type, v Val, init bool) {
 		}
 		if s.K == KBool {
 			tv = Ite(tv, BVInt(1, 8, false), BVInt(0, 8, false))
+		}
+		if s.K == KFP {
+			bits := st.declare(r.freshName("fbits"), Sort{K: KBV, W: s.W})
+			st.assume(Ident(fpFromBits(bits), tv), "bit pattern of the stored float")
+			tv = bits
 		}
 		st.mem[m] = Store(st.memArr(m), addr, Term{tv.S, *memSort(m).Elem})
 		if len(st.mem[m].S) > 200 {
@@ -1803,6 +1836,9 @@ func (e *Engine) LemmaGoal(lm *Lemma) (g *Goal, err error) {
 		}
 	}()
 	env := r.env(st, st)
+	if p, ok := lm.Pkg.(*types.Package); ok {
+		env.pkg = p
+	}
 	t := env.evalBool(lm.E)
 	return &Goal{Oblig: "lemma." + lm.Name, Fn: "lemma." + lm.Name, Prefix: st.log, Goal: t, Expect: "unsat"}, nil
 }
